@@ -51,6 +51,32 @@ extern "C" int parse_safety()
   return 0;
 }
 
+// longer texts over the bytes that drive line counting: quotes, backslashes, line breaks, one letter, brackets
+#ifndef VF_PLEN
+#define VF_PLEN 6
+#endif
+extern "C" int error_position()
+{
+  unsigned n = vf_pick(VF_PLEN + 1);
+  char* buf = (char*)vf_alloc(n + 1);
+  for(unsigned i = 0; i < n; ++i) { byte b = vf_u8(); vf_assume((b == '"') | (b == '\\') | (b == '\n') | (b == '\r') | (b == 'x') | (b == '[') | (b == ',')); buf[i] = (char)b; }
+  buf[n] = 0;
+  {
+    Json::Parser parser; Variant v;
+    if(!parser.parse(buf, v))
+    {
+      int line = parser.getErrorLine(), col = parser.getErrorColumn();
+      unsigned lines = 1;
+      for(unsigned i = 0; i < n; ++i) lines += (buf[i] == '\n') | ((buf[i] == '\r') & (buf[i + 1] != '\n'));
+      vf_assert(line >= 1 && (unsigned)line <= lines, "error line lies inside the text");
+      vf_assert(col >= 1 && (unsigned)col <= vf_lineLength(buf, n, (unsigned)line) + 1, "error column lies inside its line");
+    }
+  }
+  vf_free(buf);
+  vf_reach("end");
+  return 0;
+}
+
 // ---- round trip over small value trees (map keys are concrete: a symbolic key makes the real string hash pick one
 // of 500 buckets per byte value; key text goes through the same escaping code as string values)
 static String symString(unsigned maxLen)
@@ -90,6 +116,15 @@ extern "C" int roundtrip()
     vf_assert(root == back, "parse(toString(v)) == v");
     vf_assert(back == root, "v == parse(toString(v)) (symmetric)");
     vf_assert(back.getType() == root.getType() || root.getType() == Variant::int64Type, "type preserved (int64 may narrow to int)");
+    // the result variable need not be fresh: parsing again into it, or into a variable that held another container
+    unsigned again = vf_pick(3);
+    if(again == 1) { ok = parser.parse(text, back); vf_assert(ok && root == back, "parsing the same text again into the same variable yields the same tree"); }
+    else if(again == 2)
+    {
+      Variant used; Variant one(1);
+      if(root.getType() == Variant::mapType) used.toMap().append(String("old"), one); else used.toList().append(one);
+      ok = parser.parse(text, used); vf_assert(ok && root == used, "parsing into a used variable yields exactly the parsed tree");
+    }
   }
   vf_reach("end");
   return 0;
